@@ -36,7 +36,8 @@ Definition table_writer : list entry :=
    ("writer", ResetC, "offsetTrackingWriter: reset sets the destination and offset = 0");
    ("currentRowGroup", ResetC, "pointer fixed at construction; the pointee is reset by ConcurrentRowGroupWriter.reset");
    ("createdBy", Config, "config.CreatedBy");
-   ("metadata", Carried, "sorted copy of config.KeyValueMetadata plus SetKeyValueMetadata calls; writer.reset does not touch it: pairs set on the writer stay part of its configuration (model: l_md, theorem C17_reset_equiv_init_carried)");
+   ("metadata", ResetC, "sorted copy of config.KeyValueMetadata plus SetKeyValueMetadata calls; reset restores configMetadata (since cd20a46; model: l_md, refutation C17_pinned_kv_survives_reset_refuted)");
+   ("configMetadata", Config, "newWriter: clone of the sorted configuration pairs (model: l_cfgmd)");
    ("columnOrders", Config, "newWriter");
    ("schemaElements", Config, "newWriter");
    ("rowGroups", ResetC, "reset: every element Reset() in place, slice truncated to 0; the retained elements are reused by writeRowGroup (model: caps, invariant caps_ok)");
@@ -47,7 +48,7 @@ Definition table_writer : list entry :=
    ("deferredBloomFilterSize", ResetC, "reset: 0");
    ("fileMetaData", ResetC, "reset: zero value; assigned completely by writeFileFooter before it is encoded");
    ("footer", Scratch, "bytes 0..3 are overwritten by writeFileFooter before they are written; bytes 4..7 (magic) are set at construction");
-   ("encryption", Config, "newWriter (file id and keys; nonces are excluded from the property)")].
+   ("encryption", ResetC, "newWriter; reset builds a new state from the same configuration (keys; a new random file identifier unless the configuration pins one: excluded from the property like the nonces)")].
 
 (* ColumnWriter (writer.go) *)
 Definition table_ColumnWriter : list entry :=
@@ -85,9 +86,9 @@ Definition table_ColumnWriter : list entry :=
    ("dictionaryMaxBytes", Config, "construction");
    ("copied", ResetC, "reset: nil");
    ("encKey", Config, "encryption only");
-   ("rowGroupOrdinal", Carried, "encryption only (AAD of the modules): NOT cleared by reset, it keeps the row group count of the previous life (model: c_ordinal; C17_encrypted_reset_ordinal_refuted). Without encryption it is never assigned and never read");
+   ("rowGroupOrdinal", ResetC, "encryption only (AAD of the modules): writer.reset sets it to 0 (since 949139e; model: c_ordinal, refutation C17_pinned_encrypted_ordinal_refuted). Without encryption it is never assigned and never read");
    ("columnOrdinal", Config, "encryption only");
-   ("fileUnique", Config, "encryption only");
+   ("fileUnique", ResetC, "encryption only: the file identifier of the state rebuilt by writer.reset");
    ("aadPrefix", Config, "encryption only");
    ("totalUnencodedByteArrayBytes", ResetC, "reset: 0");
    ("repetitionLevelHistogram", ResetC, "reset: cleared");
@@ -197,6 +198,9 @@ Definition model_components : list (string * list (string * string)) :=
    ("l_cols", [("writer", "currentRowGroup"); ("ConcurrentRowGroupWriter", "columns")]);
    ("l_numrows", [("ConcurrentRowGroupWriter", "numRows")]);
    ("l_rgs + caps", [("writer", "rowGroups"); ("writer", "fileMetaData")]);
+   ("l_md", [("writer", "metadata")]);
+   ("c_ordinal / aad of the events (the file identifier is random unless pinned: not modelled)",
+    [("writer", "encryption"); ("ColumnWriter", "rowGroupOrdinal"); ("ColumnWriter", "fileUnique")]);
    ("l_cidx + caps", [("writer", "columnIndexes")]);
    ("l_oidx + caps", [("writer", "offsetIndexes")]);
    ("bloom events (inline; deferred filters are the same bytes later)", [("writer", "deferredBloomFilters"); ("writer", "deferredBloomFilterSize")]);
